@@ -156,7 +156,9 @@ def planted_program(rng):
     calls = []          # call statements from the fault outwards
     defs = []
     for _ in range(rng.randrange(0, 4)):
-        w = rng.choice(["if", "while", "iter", "func", "func", "method"])
+        w = rng.choice(["if", "while", "iter", "func", "func", "method", "ctor"])
+        if w == "ctor" and kind == "return":
+            w = "func"       # 输出 inside a constructor is not part of the planted shapes
         inner = fillers(2) + stmts + fillers(1)
         if w == "if":
             stmts = [Branch(Logic("eq", Num(1), Num(1)), inner, [], None)]
@@ -169,6 +171,14 @@ def planted_program(rng):
             f = fresh("Fp")
             defs.append(Func(f, [], inner, []))
             c = rng.choice([ExprS(Call(f, [])), Decl([(False, [fresh("Vr")], Arith("+", Call(f, []), Num(1)))]), Display(Call(f, []))])
+            calls.append(c)
+            stmts = [c]
+        elif w == "ctor":
+            # the statements run inside a custom constructor: the chain shows the line of the 新建 statement
+            cn = fresh("Ck")
+            defs.append(Class(cn, [("Pa", Num(1))], []))
+            defs.append(Ctor(cn, [], inner, []))
+            c = Decl([(False, [fresh("Vo")], New(cn, []))])
             calls.append(c)
             stmts = [c]
         else:
